@@ -11,6 +11,7 @@ pub mod c09;
 pub mod c10;
 pub mod c11;
 pub mod c12;
+pub mod c13;
 pub mod c14;
 pub mod c16;
 pub mod c18;
@@ -41,6 +42,7 @@ pub fn spec(id: &str) -> Option<CheckSpec> {
         "C10" => Some(c10::spec()),
         "C11" => Some(c11::spec()),
         "C12" => Some(c12::spec()),
+        "C13" => Some(c13::spec()),
         "C14" => Some(c14::spec()),
         "C16" => Some(c16::spec()),
         "C18" => Some(c18::spec()),
